@@ -61,12 +61,12 @@ def gen_case(rng, maxc=12, nfrag=None):
     fid = 0
     unmapped_policy = rng.choice(['none', 'some', 'some', 'many'])
 
-    def tags(cell, umi):
+    def tags(cell, umi, lane=None, fc=None):
         bc = {'LIBA_1': 'ACGTACGT', 'LIBA_2': 'TTGCATGC', 'LIBA_3': 'GGATCCAA', 'LIBB_7': 'CATTGGCA'}[cell]
         t = {'SM': cell, 'BC': bc, 'RX': umi, 'MI': bc + umi, 'LY': cell.rsplit('_', 1)[0]}
-        if cell != 'LIBA_3':            # one cell without flow cell / lane -> read group NONE.NONE.cell
-            t['Fc'] = 'HXXFC'
-            t['La'] = '2' if cell == 'LIBB_7' else '1'
+        if cell != 'LIBA_3' or lane is not None:   # one cell without flow cell / lane -> read group NONE.NONE.cell
+            t['Fc'] = fc or 'HXXFC'
+            t['La'] = lane or ('2' if cell == 'LIBB_7' else '1')
         return t
 
     def mk(name, flag, tid, pos, seq, cigar, ntid, npos, tg, kind, mapq=60):
@@ -81,12 +81,11 @@ def gen_case(rng, maxc=12, nfrag=None):
         cell = rng.choice(cells)
         umi = rand_seq(rng, 3)
         tg = tags(cell, umi)
-        name = 'NS500:%d:HXXFC:%s:1101:%d:%d' % (rng.randint(1, 9), tg.get('La', '1'), 1000 + fid, rng.randint(1000, 9999))
         ci = rng.choice(live)
         clen = contigs[ci][1]
         L1, L2 = rng.randint(20, 40), rng.randint(20, 40)
         kinds = ['pair', 'pair', 'pair', 'pair_rev', 'single', 'half', 'orphan', 'split', 'invalid_motif', 'invalid_orient',
-                 'qcfail', 'dup', 'secondary', 'orphan_unmapped']
+                 'qcfail', 'dup', 'dup', 'secondary', 'orphan_unmapped']
         if unmapped_policy != 'none':
             kinds += ['unmapped_pair', 'unmapped_single'] * (3 if unmapped_policy == 'many' else 1)
         kind = rng.choice(kinds)
@@ -94,13 +93,22 @@ def gen_case(rng, maxc=12, nfrag=None):
             # a second fragment of an existing molecule (same cell, UMI, site)
             (ci, p1, cell, umi) = rng.choice(list(sites.values()))
             clen = contigs[ci][1]
-            tg = tags(cell, umi)
+            # PCR duplicates are often sequenced on another lane / flow cell: same cell, another read group, and
+            # that read group may occur on no first fragment of any molecule
+            if rng.random() < 0.7:
+                tg = tags(cell, umi, lane=rng.choice(['3', '4', '5', '8']), fc=rng.choice(['HXXFC', 'HXXFC', 'HYYFC']))
+            else:
+                tg = tags(cell, umi)
             kind = 'pair'
+            is_dup = True
         else:
             p1 = rng.randint(0, max(0, clen - 120))
             if kind == 'dup':
                 kind = 'pair'
-        gap = rng.randint(0, 60)
+            is_dup = False
+        name = 'NS500:%d:%s:%s:1101:%d:%d' % (rng.randint(1, 9), tg.get('Fc', 'HXXFC'), tg.get('La', '1'), 1000 + fid,
+                                               rng.randint(1000, 9999))
+        gap = rng.randint(40, 60) if is_dup else rng.randint(0, 60)
         p2 = min(p1 + gap, max(0, clen - L2))
         s1 = 'CATG' + rand_seq(rng, L1 - 4)
         s2 = rand_seq(rng, L2)
@@ -220,6 +228,43 @@ def layout_cases(kmax):
                         r['tags']['zi'] = i
                     out.append({'contigs': [['k%d' % i, sizes[i]] for i in range(k)], 'records': recs, 'name_form': 'tags',
                                 'layout': True})
+    return out
+
+
+def lane_cases(rng, n):
+    """one molecule (same cell, UMI, cut site) whose duplicate fragments were sequenced on other lanes / flow cells
+    that occur nowhere else in the library; the first fragment of the molecule comes from the common lane"""
+    out = []
+    for k in range(n):
+        nc = rng.randint(1, 3)
+        contigs = [['k%d' % i, rng.choice([900, 150000])] for i in range(nc)]
+        recs = []
+        ndup = rng.randint(1, 3)
+        ci = rng.randrange(nc)
+        p1 = rng.randint(10, 300)
+        umi = rand_seq(rng, 3)
+        lanes = [('HXXFC', '1')] + rng.sample([('HXXFC', '2'), ('HXXFC', '3'), ('HYYFC', '1'), ('HYYFC', '6')], ndup)
+        for j, (fc, la) in enumerate(lanes):
+            tg = {'SM': 'LIBA_1', 'BC': 'ACGTACGT', 'RX': umi, 'MI': 'ACGTACGT' + umi, 'LY': 'LIBA', 'Fc': fc, 'La': la}
+            name = 'NS500:1:%s:%s:1101:%d:%d' % (fc, la, 4000 + j, 5000 + k)
+            s1, s2 = 'CATG' + rand_seq(rng, 26), rand_seq(rng, 30)
+            p2 = p1 + 40 + 10 * j          # the common-lane pair completes first
+            recs.append({'n': name, 'f': PAIRED | PROPER | MREV | R1, 't': ci, 'p': p1, 'q': 60, 'c': '30M', 's': s1,
+                         'ql': 'J' * 30, 'nt': ci, 'np': p2, 'tags': dict(tg), 'kind': 'pair' if j == 0 else 'lane_dup'})
+            recs.append({'n': name, 'f': PAIRED | PROPER | REV | R2, 't': ci, 'p': p2, 'q': 60, 'c': '30M', 's': s2,
+                         'ql': 'F' * 30, 'nt': ci, 'np': p1, 'tags': dict(tg), 'kind': 'pair' if j == 0 else 'lane_dup'})
+        # a few other fragments, all from the common lane
+        for j in range(rng.randint(0, 3)):
+            cj = rng.randrange(nc)
+            pj = rng.randint(400, 700)
+            tg = {'SM': 'LIBA_2', 'BC': 'TTGCATGC', 'RX': rand_seq(rng, 3), 'LY': 'LIBA', 'Fc': 'HXXFC', 'La': '1'}
+            tg['MI'] = tg['BC'] + tg['RX']
+            recs.append({'n': 'NS500:1:HXXFC:1:1101:%d:%d' % (4500 + j, 5000 + k), 'f': 0, 't': cj, 'p': pj, 'q': 60, 'c': '30M',
+                         's': 'CATG' + rand_seq(rng, 26), 'ql': 'A' * 30, 'nt': -1, 'np': -1, 'tags': tg, 'kind': 'single'})
+        recs.sort(key=lambda r: (r['t'], r['p'], 0 if r['tags']['La'] == '1' and r['tags']['Fc'] == 'HXXFC' else 1))
+        for i, r in enumerate(recs):
+            r['tags']['zi'] = i
+        out.append({'contigs': contigs, 'records': recs, 'name_form': 'tags', 'lanes': True})
     return out
 
 
@@ -346,6 +391,7 @@ class Prop(fw.PropBase):
             cases.append(c)
         for i in range(6 if quick else 40):
             cases.append(gen_malformed(self.rng))
+        cases += lane_cases(self.rng, 4 if quick else 30)
         lay = layout_cases(2 if quick else 4)
         self.n_layout = len(lay)
         for c in lay:
@@ -610,6 +656,9 @@ class Prop(fw.PropBase):
             'hist_record_kind': dict(hist_kind), 'records_in_rejected_kinds': n_inv,
             'malformed_libraries': sum(1 for c in cases if c.get('malformed')),
             'query_name_encoded_libraries': sum(1 for c in cases if c.get('name_form') == 'qname'),
+            'multi_lane_molecule_libraries': sum(1 for c in cases if c.get('lanes')),
+            'read_groups_per_library_hist': dict(sorted(collections.Counter(
+                len(set(x.get('xrg') or expected_rg(x['tags']) for x in c['records'])) for c in cases).items())),
             'precondition_hit_rate': None if pre_hits is None else round(pre_hits, 4),
             'traces_validated_against_impl': n_traces,
             'spec_violations_on_impl': len(spec_bad), 'disagreements': len(dis),
